@@ -870,6 +870,8 @@ class EquivPos2(Macro):
 
     def eval(self, args, prevs=None):
         arg1, arg2, arg3 = args
+        if not arg1.is_not() or not arg1.arg.is_equals():
+            raise VeriTException("equiv_pos2", "the first literal must be a negated equivalence")
         eq_tm = arg1.arg
         if Not(eq_tm.arg1) == arg2 and eq_tm.arg == arg3:
             return Thm(Or(*args))
